@@ -835,7 +835,9 @@ func (v *view) oracleC03() {
 			}
 			if ev.Err.IsNil() {
 				sent = true
-			} else {
+			} else if !sent {
+				// a failed first send may or may not have taken the headers
+				// with it; once they were sent they stay sent
 				known = false
 			}
 		}
@@ -844,7 +846,36 @@ func (v *view) oracleC03() {
 		// metadata set by a goroutine the handler left behind, after the reply
 		// has been sent: "setting headers after they were sent fails"
 		if ev.Side == 'h' && ev.G == 9 && v.r.Kind == KUnary && (ev.Op == "late-sethdr" || ev.Op == "late-sendhdr" || ev.Op == "late-settlr") && ev.RSeq != 0 && ev.Err.IsNil() {
-			v.fail("C03", "set-after-sent-succeeds|"+ev.Op, "%s by a goroutine the unary handler left behind, after the handler had returned, reported success (the reply had been sent; the metadata is lost)", ev.Op)
+			inv := v.invoke
+			if inv == nil || inv.RSeq == 0 {
+				continue
+			}
+			if v.ctxDoneBefore(inv.RSeq) || v.cutBefore(inv.RSeq) {
+				continue // the caller did not wait for the reply: the handler may have returned much later
+			}
+			if ev.Seq > inv.RSeq {
+				v.fail("C03", "set-after-sent-succeeds|"+ev.Op, "%s by a goroutine the unary handler left behind reported success after the caller already had its reply (the metadata is lost)", ev.Op)
+				continue
+			}
+			// between the handler's return and the reply: the library may still
+			// take it - but then it must be in the reply
+			if !inv.Err.IsNil() {
+				continue
+			}
+			targets, val := inv.OptH, map[string]string{"late-sethdr": "h", "late-sendhdr": "s"}[ev.Op]
+			if ev.Op == "late-settlr" {
+				targets, val = inv.OptT, "t"
+			}
+			for i, md := range targets {
+				got, found := md.Get("late"), false
+				for _, x := range got {
+					found = found || x == val
+				}
+				if !found {
+					v.fail("C03", "set-after-sent-succeeds|"+ev.Op, "%s by a goroutine the unary handler left behind reported success after the handler had returned, but the successful call's option target #%d does not have it (late=%q, target holds %v): the reply had been put together; the metadata is lost", ev.Op, i, got, md)
+					break
+				}
+			}
 		}
 	}
 	if v.hStart == nil {
@@ -1312,6 +1343,9 @@ func (v *view) oracleC10() {
 	}
 	if f["clientctx"] != "ok" {
 		v.fail("C10", "client-context-accessor", "ClientContext(handler ctx) is %s", f["clientctx"])
+	}
+	if leak := f["clientctx-md-has-creds"]; leak != "" {
+		v.fail("C10", "client-context-not-the-callers", "ClientContext(handler ctx) has outgoing metadata %s that the caller's context does not have (the per-RPC credentials supplied it)", leak)
 	}
 	exp := v.expectedIncoming()
 	if ok, why := v.incomingOK(v.hStart.MD); !ok {
